@@ -34,6 +34,11 @@ CLAIMED = {
     'C02': e2('Resolver thread (value / drop / exception / promise destruction) against waiter threads of every kind (callback awaiter, blocking wait()/sync(), coroutine protocol with a frame that dies on resume, '
               'has_value(), poller): every waiter is released exactly once or told "already resolved" (never both), never before the result is set, it observes the final result, nobody stays blocked '
               '(deadlock query), nothing touches a waiter after its release (lifetime query).', 'DESIGN.md 3, 5/C02', T_E2),
+    'C03': e2('(a) Lock-free core (E2, happens-before over all SC interleavings): resolver against poller / callback subscriber / blocking wait / coroutine protocol / has_value, two resolvers, and the mutex contention '
+              'scenarios whose critical section writes plain cells: no pair of conflicting accesses with a non-atomic member is unordered by C++20 happens-before (release/acquire, release sequences, fences). '
+              '(b) Lock discipline (E1, -DVF_DISCIPLINE): in every history of 3 (thorough 4) operations on queue, limited_queue, scheduler (manual mode) and publisher, every access to the component object and to heap '
+              'blocks allocated under its lock happens with the lock held. Non-SC executions and thread_pool are outside (C11 models the pool).', 'DESIGN.md 3.3, 3.7, 5/C03',
+              T_E2.replace('sequential-consistency encoding', 'sequential-consistency encoding plus C++20 happens-before as vector clocks (data-race query)') + ' ; lock discipline: ' + T_E1, engine='E1+E2'),
     'C07': e2('Contenders of every flavour (try_lock, blocking lock().wait(), coroutine protocol) and release flavour (ownership destructor, release() discarded, release()+clear()) on one mutex, owner releasing while a '
               'request is in flight and free-mutex contention: no two parties in the critical section, each request granted exactly once, a waiter told "not suspended" is never resumed as well, suspended '
               'waiters resumed exactly once, library asserts, lifetime of the awaiter/frame, no thread blocked forever, mutex lockable again.', 'DESIGN.md 3, 5/C07', T_E2),
